@@ -308,7 +308,7 @@ def build(cfg) -> Built:
         if cell in ("triangle", "tetrahedron", "prism") or (itype in ("ds", "dS") and cell in ("tetrahedron", "prism")):
             raise Inapplicable("GLL on simplices")
         md = {"quadrature_rule": "GLL", "quadrature_degree": 3}
-    elif quad == "two":
+    elif quad in ("two", "two1"):
         md = None  # handled below
     elif quad != "auto":
         raise KeyError(quad)
@@ -326,7 +326,11 @@ def build(cfg) -> Built:
         m = M(**kw) if sid is None else M(sid, **kw)
         return m
 
-    if quad == "two":
+    if quad == "two1":
+        # a one-point rule next to another rule; the coefficient f appears under both (piecewise for the first, varying for the second)
+        ff = f(sf) if itype == "dS" else f
+        form = integrand * meas({"quadrature_degree": 1}) + (2.0 + c0) * ufl.cos(ff) * core * meas({"quadrature_degree": 4})
+    elif quad == "two":
         # two integrals with different rules on the same subdomain: different integrands each
         form = integrand * meas({"quadrature_degree": 2}) + (2.0 + c0) * core * meas({"quadrature_degree": 5})
     else:
